@@ -30,7 +30,17 @@ const char* const KEY_A = "C15|bloom|update()-through-caller-memory|bits-used fi
 const char* const KEY_B = "C15|bloom|query_and_update()-on-dirty-filter|stale count stored and dirty flag cleared|update() then query_and_update() without recount";
 const char* const KEY_C = "C15|bloom|read-only view|invert/union_with/intersect not refused|set operation through non-const copy of wrap()";
 
-#define CK(cond, id, key, msgexpr) VF_CHECK_K(cond, id, std::string(key), msgexpr)
+// A failing comparison can have more than one known explanation (the two count defects overlap: after update() and
+// query_and_update() through the same caller-memory filter either of them alone leaves a wrong count in the memory). Suspicions
+// are carried as a mask; a failure is reported under an explanation that is listed as open if there is one, else under the first.
+enum : unsigned { SUS_A = 1, SUS_B = 2, SUS_C = 4 };
+std::string keyof(unsigned mask) {
+  const char* const keys[3] = {KEY_A, KEY_B, KEY_C};
+  for (int i = 0; i < 3; ++i) if ((mask >> i & 1) && vf::known_keys().count(keys[i])) return keys[i];
+  for (int i = 0; i < 3; ++i) if (mask >> i & 1) return keys[i];
+  return std::string();
+}
+#define CK(cond, id, mask, msgexpr) VF_CHECK_K(cond, id, keyof(mask), msgexpr)
 
 const uint64_t DIRTY = ~0ull;
 const size_t MAX_VIEWS = 7;
@@ -114,7 +124,7 @@ struct Store {
   Bits bits;
   bool is_mem = false;
   std::vector<uint8_t> mem; size_t off = 0;  // caller memory; the image starts at mem.data() + off
-  std::string memkey;                        // non-empty: the count field of the memory is expected to be wrong (known finding)
+  unsigned memsus = 0;                       // non-zero: the count field of the memory is expected to be wrong (known findings SUS_*)
   bool mem_dirty = false;                    // count field holds the "dirty" marker
   std::vector<Item> must;                    // items inserted and still guaranteed present
   bool wwrap_update = false;                 // a bit-setting update went through a writable wrap of this memory
@@ -142,7 +152,7 @@ struct View {
   std::unique_ptr<bloom_filter> f;
   bool ro = false;
   int kind = K_OWNED;
-  std::string key;       // non-empty: this view's cached count is expected to be wrong (known finding)
+  unsigned sus = 0;      // non-zero: this view's cached count is expected to be wrong (known findings SUS_*)
   bool dirty_m = false;  // the view may be in the "dirty" state (count to be recomputed)
 };
 
@@ -180,7 +190,7 @@ void check_mem_bits(Store& s, const char* after) {
 void check_view(Ctx& c, View& v, const char* after, bool full) {
   Store& s = *v.s;
   const bloom_filter& f = *v.f;
-  const std::string& key = v.key;
+  const unsigned key = v.sus;
   const uint64_t pc = s.bits.popcount();
   check_config(f, s, after);
   VF_CHECK(f.is_read_only() == v.ro, "read-only-flag", "after " << after << ": is_read_only " << f.is_read_only() << " expected " << v.ro);
@@ -219,7 +229,7 @@ void check_view(Ctx& c, View& v, const char* after, bool full) {
     VF_CHECK(cp.is_compatible(f) && f.is_compatible(cp), "copy-compatible", "copy not compatible with its source");
   }
   if (s.is_mem) check_mem_bits(s, after);
-  v.key.clear();  // the suspicion that this view's count is wrong (known finding) is refuted by the comparison above
+  v.sus = 0;  // the suspicion that this view's count is wrong (known finding) is refuted by the comparison above
 }
 
 void check_all(Ctx& c, const char* after, bool full) {
@@ -252,8 +262,8 @@ void drop_bypassed(Ctx& c, size_t vi) {
 size_t index_of(Ctx& c, const View* v) { return static_cast<size_t>(v - c.views.data()); }
 
 void exact_count_written(View& v) {  // reset / union / intersect / invert recompute the count and store it
-  v.key.clear(); v.dirty_m = false;
-  if (v.s->is_mem) { v.s->memkey.clear(); v.s->mem_dirty = false; }
+  v.sus = 0; v.dirty_m = false;
+  if (v.s->is_mem) { v.s->memsus = 0; v.s->mem_dirty = false; }
 }
 
 // ---------------------------------------------------------------- creation
@@ -349,8 +359,8 @@ void note_fresh_view(Ctx& c, const Store& s, const char* how) {
 // new view of caller memory: mode 0 = wrap (read-only), 1 = writable_wrap, 2 = deserialize(bytes) from the memory
 void view_from_memory(Ctx& c, std::shared_ptr<Store> s, int mode) {
   View v;
-  v.key = s->memkey;
-  v.dirty_m = s->mem_dirty || !s->memkey.empty();
+  v.sus = s->memsus;
+  v.dirty_m = s->mem_dirty || s->memsus != 0;
   if (mode == 0) {
     v.s = s; v.kind = K_WRAP_RO; v.ro = true;
     v.f.reset(new bloom_filter(bloom_filter::wrap(s->image(), s->image_len())));
@@ -368,7 +378,7 @@ void view_from_memory(Ctx& c, std::shared_ptr<Store> s, int mode) {
   }
   View& nv = add_view(c, std::move(v));
   check_view(c, nv, mode == 0 ? "wrap" : mode == 1 ? "writable_wrap" : "deserialize(memory)", false);
-  s->memkey.clear();  // the count field of the memory was just read and found right (or marked "recompute")
+  s->memsus = 0;  // the count field of the memory was just read and found right (or marked "recompute")
   note_fresh_view(c, *s, mode == 0 ? "wrap" : mode == 1 ? "writable_wrap" : "deserialize");
 }
 
@@ -378,7 +388,7 @@ void op_ser(Ctx& c, size_t vi, int mode, unsigned hdr) {
   std::shared_ptr<Store> sp = v.s;
   Store& s = *sp;
   const bool src_wwrap = s.wwrap_update;
-  const std::string vkey = v.key;
+  const unsigned vsus = v.sus;
   const uint64_t pc = s.bits.popcount();
   const bool empty = pc == 0;
   std::vector<uint8_t> img;
@@ -395,7 +405,7 @@ void op_ser(Ctx& c, size_t vi, int mode, unsigned hdr) {
     img.assign(bytes.begin(), bytes.end());
     vf::label("ser-bytes");
   }
-  CK(img.size() == hdr + image_size(s, empty), "image-size", v.key, "serialized " << img.size() << " bytes, expected " << hdr + image_size(s, empty) << " (bits set " << pc << ")");
+  CK(img.size() == hdr + image_size(s, empty), "image-size", vsus, "serialized " << img.size() << " bytes, expected " << hdr + image_size(s, empty) << " (bits set " << pc << ")");
   for (unsigned i = 0; i < hdr; ++i) VF_CHECK(img[i] == 0, "header-blank", "header byte " << i << " is " << int(img[i]));
   const uint8_t* p = img.data() + hdr;
   VF_CHECK(p[0] == (empty ? 3 : 4) && p[1] == 1 && p[2] == 21 && p[3] == (empty ? 4 : 0), "image-preamble", "preamble bytes " << int(p[0]) << " " << int(p[1]) << " " << int(p[2]) << " " << int(p[3]));
@@ -408,7 +418,7 @@ void op_ser(Ctx& c, size_t vi, int mode, unsigned hdr) {
   if (!empty) {
     uint64_t cnt; std::memcpy(&cnt, p + 24, 8);
     img_dirty = (cnt == DIRTY);
-    CK(cnt == DIRTY || cnt == pc, "image-count", v.key, "image count field " << cnt << ", model popcount " << pc);
+    CK(cnt == DIRTY || cnt == pc, "image-count", vsus, "image count field " << cnt << ", model popcount " << pc);
     for (uint64_t b = 0; b < s.cfg.cap / 8; ++b)
       if (p[32 + b] != s.bits.byte(b)) VF_CHECK(false, "image-bit-array", "byte " << b << " of the serialized bit array is " << int(p[32 + b]) << ", model " << int(s.bits.byte(b)));
     vf::count("checks");
@@ -417,7 +427,7 @@ void op_ser(Ctx& c, size_t vi, int mode, unsigned hdr) {
   if (mode <= 1) {
     auto o = new_store(s.cfg);
     o->bits = s.bits; o->must = s.must;
-    View nv; nv.s = o; nv.kind = K_DESER; nv.key = vkey; nv.dirty_m = img_dirty;
+    View nv; nv.s = o; nv.kind = K_DESER; nv.sus = vsus; nv.dirty_m = img_dirty;
     if (stream) {
       std::istringstream is(std::string(img.begin(), img.end()), std::ios::binary);
       nv.f.reset(new bloom_filter(bloom_filter::deserialize(is)));
@@ -449,14 +459,14 @@ void op_ser(Ctx& c, size_t vi, int mode, unsigned hdr) {
     return;
   }
   o->is_mem = true; o->mem = std::move(img); o->off = hdr;
-  o->memkey = vkey; o->mem_dirty = img_dirty;
+  o->memsus = vsus; o->mem_dirty = img_dirty;
   remember_memstore(c, o);
   view_from_memory(c, o, mode == 2 ? 0 : 1);
   if (src_wwrap) { c.nt = true; vf::label("view-after-wwrap-update"); vf::label("fresh:serialize-wrap"); }
 }
 
 // ---------------------------------------------------------------- writes
-bool expect_refusal_ro(View& v, const char* what, const std::function<void(bloom_filter&)>& fn, const char* key) {
+bool expect_refusal_ro(View& v, const char* what, const std::function<void(bloom_filter&)>& fn, unsigned key) {
   bool refused = false;
   try { fn(*v.f); } catch (const std::logic_error&) { refused = true; }
   CK(refused, "read-only-write-refused", key, what << " through a read-only view was not refused");
@@ -493,18 +503,16 @@ void do_insert(Ctx& c, size_t vi, const Item& it, bool qau) {
   if (!qau) {
     v.dirty_m = true;
     if (s.is_mem) {
-      s.mem_dirty = true;  // a correct implementation marks the count in memory as "to be recomputed"; the pinned tree leaves it stale
-      if (s.memkey.empty() && newbits > 0) s.memkey = KEY_A;
+      s.mem_dirty = true;  // a correct implementation marks the count in memory as "to be recomputed"; the pinned tree leaves it stale (A)
+      if (newbits > 0) s.memsus |= SUS_A;
     }
-  } else {
-    if (v.dirty_m) {
-      // known finding B on the pinned tree (a stale count is stored and the dirty state is lost); a correct implementation
-      // stays dirty and leaves the count field of the memory alone
-      if (v.key.empty()) v.key = KEY_B;
-      if (s.is_mem && s.memkey.empty()) s.memkey = v.key;
-    } else if (s.is_mem && newbits > 0) {
-      s.memkey = v.key; s.mem_dirty = false;  // exact count written through (nothing needs writing when no bit changed)
-    }
+  } else if (v.dirty_m) {
+    // B on the pinned tree: a stale count is stored (also into the memory) and the dirty state is lost; a correct implementation stays
+    // dirty and leaves the count field alone. dirty_m stays set: "may be dirty".
+    v.sus |= SUS_B;
+    if (s.is_mem) s.memsus |= SUS_B;
+  } else if (s.is_mem && newbits > 0) {
+    s.memsus = v.sus; s.mem_dirty = false;  // exact count written through (nothing needs writing when no bit changed)
   }
 }
 
@@ -513,7 +521,7 @@ void settle(Ctx& c, size_t vi, const Item& last) {
   View& v = c.views[vi];
   Store& s = *v.s;
   uint64_t used = v.f->get_bits_used();
-  CK(used == s.bits.popcount(), "bits-used-direct", v.key, "get_bits_used " << used << ", model popcount " << s.bits.popcount());
+  CK(used == s.bits.popcount(), "bits-used-direct", v.sus, "get_bits_used " << used << ", model popcount " << s.bits.popcount());
   v.dirty_m = false;
   if (s.is_mem) do_insert(c, vi, last, true);
 }
@@ -537,7 +545,7 @@ void op_insert(Ctx& c, const Op& op, bool qau) {
   const bool eff = canon(it, b);
   if (c.views[vi].ro) {
     if (eff) {
-      expect_refusal_ro(c.views[vi], qau ? "query_and_update" : "update", [&](bloom_filter& f) { if (qau) lib_qau(f, it); else lib_update(f, it); }, "");
+      expect_refusal_ro(c.views[vi], qau ? "query_and_update" : "update", [&](bloom_filter& f) { if (qau) lib_qau(f, it); else lib_update(f, it); }, 0);
     } else {  // an ignored (empty) item is documented to return at once; with or without refusal nothing may change
       try { if (qau) { bool r = lib_qau(*c.views[vi].f, it); VF_CHECK(!r, "query-and-update-return", "empty item reported present"); } else lib_update(*c.views[vi].f, it); }
       catch (const std::logic_error&) {}
@@ -621,7 +629,7 @@ void op_setop(Ctx& c, const Op& op, bool is_union) {
     return;  // the per-step comparison shows that nothing changed
   }
   if (dst.ro) {
-    expect_refusal_ro(dst, is_union ? "union_with" : "intersect", [&](bloom_filter& f) { if (is_union) f.union_with(*src.f); else f.intersect(*src.f); }, KEY_C);
+    expect_refusal_ro(dst, is_union ? "union_with" : "intersect", [&](bloom_filter& f) { if (is_union) f.union_with(*src.f); else f.intersect(*src.f); }, SUS_C);
     return;
   }
   if (is_union) dst.f->union_with(*src.f); else dst.f->intersect(*src.f);
@@ -640,7 +648,7 @@ void op_invert(Ctx& c, const Op& op) {
   const bool force_ro = (op.uarg(1) % 16) == 0;
   if (c.views[a].ro && !force_ro) { a = pick_writable(c, a); if (a == static_cast<size_t>(-1)) return; }
   View& v = c.views[a];
-  if (v.ro) { expect_refusal_ro(v, "invert", [](bloom_filter& f) { f.invert(); }, KEY_C); return; }
+  if (v.ro) { expect_refusal_ro(v, "invert", [](bloom_filter& f) { f.invert(); }, SUS_C); return; }
   v.f->invert();
   for (auto& w : v.s->bits.w) w = ~w;
   v.s->must.clear();
@@ -654,7 +662,7 @@ void op_invert(Ctx& c, const Op& op) {
 void op_reset(Ctx& c, const Op& op) {
   size_t a = pick_view(c, op.uarg(0));
   View& v = c.views[a];
-  if (v.ro) { expect_refusal_ro(v, "reset", [](bloom_filter& f) { f.reset(); }, ""); return; }
+  if (v.ro) { expect_refusal_ro(v, "reset", [](bloom_filter& f) { f.reset(); }, 0); return; }
   v.f->reset();
   for (auto& w : v.s->bits.w) w = 0;
   v.s->must.clear();
@@ -668,7 +676,7 @@ void op_copy(Ctx& c, const Op& op) {
   View& v = c.views[a];
   View nv;
   nv.f.reset(new bloom_filter(*v.f));
-  nv.ro = v.ro; nv.kind = v.kind; nv.key = v.key; nv.dirty_m = v.dirty_m;
+  nv.ro = v.ro; nv.kind = v.kind; nv.sus = v.sus; nv.dirty_m = v.dirty_m;
   const bool wu = v.s->wwrap_update;
   if (v.s->is_mem) {
     nv.s = v.s;  // a copy of a filter over caller memory is one more view of that memory
@@ -686,7 +694,7 @@ void op_copy(Ctx& c, const Op& op) {
 void op_bits(Ctx& c, const Op& op) {  // get_bits_used on the view itself (recounts when dirty)
   View& v = c.views[pick_view(c, op.uarg(0))];
   uint64_t used = v.f->get_bits_used();
-  CK(used == v.s->bits.popcount(), "bits-used-direct", v.key, "get_bits_used " << used << ", model popcount " << v.s->bits.popcount() << " (kind " << v.kind << ")");
+  CK(used == v.s->bits.popcount(), "bits-used-direct", v.sus, "get_bits_used " << used << ", model popcount " << v.s->bits.popcount() << " (kind " << v.kind << ")");
   v.dirty_m = false;
   vf::label("bits-used-direct");
 }
